@@ -49,6 +49,7 @@ class IfWriteHandler(AbstractWriteHandler):
     ):
         super().__init__(start_vertex, decompiler, parent)
         self.ended_on_jump = True
+        self._v_after_elseif_branches: Vertex | None = None
 
     def write_content(self) -> Vertex | None:
         op: SsbLabelJump = self.start_vertex["op"]
@@ -114,6 +115,10 @@ class IfWriteHandler(AbstractWriteHandler):
                     # The if-branch did not arrive at the end label (it was left with a jump, because its content was already
                     # written elsewhere), but the else edge leads there: that is where this block continues.
                     return else_edge.target_vertex
+                if v_after_else_branch is None:
+                    # Neither the if-branch nor the else-branch arrived at the end of the if (both were left with a jump or a
+                    # return), but an elseif-branch may have: that is where this block continues.
+                    return self._v_after_elseif_branches
                 return v_after_else_branch
             return v_after_if_branch
 
@@ -203,13 +208,15 @@ class IfWriteHandler(AbstractWriteHandler):
 
                 with Blk(self.decompiler):
                     # Handle elseif-branch
-                    BlockWriteHandler(
+                    v_after_elseif_branch = BlockWriteHandler(
                         if_edge.target_vertex,
                         self.decompiler,
                         self,
                         self.start_vertex,
                         check_end_block=self.check_end_block,
                     ).write_content()
+                if self._v_after_elseif_branches is None:
+                    self._v_after_elseif_branches = v_after_elseif_branch
                 next_vertex_ends = isinstance(else_edge.target_vertex["op"], SsbLabel) and any(
                     isinstance(mx, IfEnd) and m.if_id == mx.if_id for mx in else_edge.target_vertex["op"].markers
                 )
